@@ -142,6 +142,8 @@ func runC18(_ *testing.T, c c18Case) (out kit.Outcome) {
 		sawNoChange       bool
 		prevStdev         float64
 		prevStdevKnown    = true // a new instance reports 0
+		outsidePrev       bool   // the sample just added lies outside the range of the earlier samples since the reset
+		prevLo, prevHi    float64
 	)
 	resetRef := func() { count, sum, lo, hi, last, updated = 0, 0, 0, 0, 0, false }
 	tol := func(x float64) float64 { return math.Abs(x)*1e-9 + 1e-300 }
@@ -180,6 +182,8 @@ func runC18(_ *testing.T, c c18Case) (out kit.Outcome) {
 			sawReset = true
 			addsAfterReset = 0
 		case "add":
+			outsidePrev = count >= 1 && (op.V < lo || op.V > hi)
+			prevLo, prevHi = lo, hi
 			count++
 			sum += op.V
 			if count == 1 || op.V < lo {
@@ -277,6 +281,11 @@ func runC18(_ *testing.T, c c18Case) (out kit.Outcome) {
 		case "var":
 			if got < 0 {
 				return kit.Viol("var:negative", "op %d %+v: variance Get()=%v < 0", i, op, got)
+			}
+			if op.K == "add" && !updated && outsidePrev && got == 0 {
+				// whatever mean the variance is taken around lies within the earlier samples; a sample outside their
+				// range deviates from it, so the variance cannot be zero afterwards
+				return kit.Viol("var:zero", "op %d Add(%v): the sample lies outside the range [%v,%v] of all %d earlier samples since the reset, yet the variance reads 0", i, op.V, prevLo, prevHi, count-1)
 			}
 			if op.K == "add" {
 				if v < 0 || math.IsNaN(v) {
